@@ -137,10 +137,16 @@ def run_slice(case, drv) -> Outcome:
             for z0 in (math.floor(pos), math.floor(pos) + 1):
                 if 0 <= z0 < shape[0]:
                     wgt[z0] += 0  # the implementation samples the profile at the voxel distance, not by interpolation
-        expected = prof.inner((zs - zc).float()).double()
-        expected = expected * ((zs - zc).abs() <= (w_impl or 0) + 1)
-        if float(expected.sum()) > 0 and float(colz.sum()) > 0:
-            dev = float((colz / colz.sum() - expected / expected.sum()).abs().max())
+        # the orientation of the profile axis relative to the volume index is a convention the property does not fix (the library
+        # evaluates the profile at slice centre minus voxel position): either orientation is accepted, the *shape* must be the profile
+        devs = []
+        for sgn in (1.0, -1.0):
+            expected = prof.inner((sgn * (zs - zc)).float()).double()
+            expected = expected * ((zs - zc).abs() <= (w_impl or 0) + 1)
+            if float(expected.sum()) > 0 and float(colz.sum()) > 0:
+                devs.append(float((colz / colz.sum() - expected / expected.sum()).abs().max()))
+        if devs:
+            dev = min(devs)
             if dev > 0.05:
                 viol = viol or {'signature': 'slice:profile-shape', 'what': f'{cfg}: weights of the centre pixel along the normal deviate from the normalised profile by {dev:.3f}'}
     return Outcome(key=('slice', tuple(shape), case['profile'], case['fwhm'], case['rotation'], case['shift']), corr=corr, viol=viol,
